@@ -4,6 +4,8 @@
 //!
 //! Inputs (replayable): `run <op>;<op>;…` (one op per statement, see Driver/Seg.lean) and
 //! `enum <base> <depth> <prefix>` (all programs of length ≤ depth over the 26-statement alphabet).
+// catch-all arms keep the harness compiling when the crate adds a variant to one of its error enums (the outcome is then `unknown:<Debug>`)
+#![allow(unreachable_patterns)]
 use std::collections::BTreeMap;
 use std::error::Error;
 use std::path::PathBuf;
@@ -149,6 +151,7 @@ fn classify(e: &(dyn Error + 'static)) -> String
 			SegmentError::Occupied(a) => format!("occupied {a:08x}"),
 			SegmentError::Overflow{need, have} => format!("overflow {need} {have}"),
 			SegmentError::Write(PutError::Overflow{need, have}) => format!("write {need} {have}"),
+			s => format!("unknown:{s:?}").replace(' ', "_").replace(',', "_"),
 		};
 	}
 	if let Some(PutError::Overflow{need, have}) = e.downcast_ref::<PutError>() {return format!("write {need} {have}");}
